@@ -90,7 +90,7 @@ def gen_frame(rng, nrows, ncols, stopgap):
     return cols
 
 
-def build_df(cols, nrows):
+def build_df(cols, nrows, index=None):
     data = {}
     for c in cols:
         if c["kind"] == "int":
@@ -99,7 +99,10 @@ def build_df(cols, nrows):
             data[c["name"]] = np.array(c["values"], dtype=np.float64)
         else:
             data[c["name"]] = pd.Series(list(c["values"]), dtype=object)
-    return pd.DataFrame(data, columns=[c["name"] for c in cols], index=range(nrows))
+    df = pd.DataFrame(data, columns=[c["name"] for c in cols], index=range(nrows))
+    if index is not None and len(index) == nrows:
+        df.index = index  # a sorted / filtered / concatenated table: same rows, other index labels
+    return df
 
 
 def expected_from_frames(blocks):
@@ -183,7 +186,15 @@ class C02(Property):
             if i == nb - 1 and rng.chance(0.08):
                 nrows = 0  # an empty table only as the last block
             ncols = rng.randrange(1, cfg["max_cols"] + 1)
-            blocks.append({"spec": spec, "nrows": nrows, "cols": gen_frame(rng, nrows, ncols, "stopgap" in spec)})
+            b = {"spec": spec, "nrows": nrows, "cols": gen_frame(rng, nrows, ncols, "stopgap" in spec)}
+            style = rng.pick(["default", "default", "shuffled", "gaps", "repeated"])
+            if style == "shuffled":
+                b["index"] = rng.perm(nrows)
+            elif style == "gaps":
+                b["index"] = sorted(rng.sample(range(3 * nrows + 2), nrows))
+            elif style == "repeated":
+                b["index"] = [i % max(1, nrows // 2) for i in range(nrows)]
+            blocks.append(b)
         return blocks
 
     def gen_layout(self, rng):
@@ -254,7 +265,9 @@ class C02(Property):
     def do_write(self, world, step):
         path = self.abspath(world, step["path"])
         blocks = step["blocks"]
-        frames = [build_df(b["cols"], b["nrows"]) for b in blocks]
+        frames = [build_df(b["cols"], b["nrows"], b.get("index")) for b in blocks]
+        if any(b.get("index") for b in blocks):
+            world.probes["nondefault_table_index"] += 1
         specs = [b["spec"] for b in blocks]
         if step.get("default_specs"):
             kw = {}
@@ -399,10 +412,15 @@ class C02(Property):
                 for ci in range(len(b["cols"])):
                     b2 = dict(b, cols=b["cols"][:ci] + b["cols"][ci + 1:])
                     yield dict(step, blocks=blocks[:bi] + [b2] + blocks[bi + 1:])
+            if b.get("index"):
+                b2 = {k: v for k, v in b.items() if k != "index"}
+                yield dict(step, blocks=blocks[:bi] + [b2] + blocks[bi + 1:])
             if b["nrows"] > 1:
                 for keep in (slice(0, b["nrows"] // 2), slice(b["nrows"] // 2, None), slice(0, b["nrows"] - 1)):
                     cols = [dict(c, values=c["values"][keep]) for c in b["cols"]]
                     b2 = dict(b, cols=cols, nrows=len(cols[0]["values"]))
+                    if b.get("index"):
+                        b2["index"] = b["index"][keep]
                     yield dict(step, blocks=blocks[:bi] + [b2] + blocks[bi + 1:])
         if "layout" in step:
             plain = {"eol": "\n", "final_newline": True, "seps": ["\t"], "lead": "", "trail": "", "numbered": True,
